@@ -193,3 +193,61 @@ func ZZ_C18_par_T() {
 		runPARUse(newPAREnv(tx), false)
 	}
 }
+
+// ---------------------------------------------------------------- issuing at the authorization endpoint (code, implicit)
+
+func runAuthorize(e *env, variant int) {
+	e.bystander()
+	var extra url.Values
+	switch variant {
+	case 0:
+		e.name += "-code"
+	case 1:
+		e.name += "-code-pkce"
+		extra = url.Values{"code_challenge": {s256(pkceVerifier)}, "code_challenge_method": {"S256"}}
+	case 2:
+		e.name += "-implicit"
+		extra = url.Values{"response_type": {"token"}}
+	}
+	verifier := ""
+	if variant == 1 {
+		verifier = pkceVerifier
+	}
+	pre := TakeSnap(e.fs.MemoryStore)
+	e.arm(false)
+	code, resp, err := e.w.AuthorizeCode("c1", []string{"offline", "photos"}, extra)
+	v := e.afterFault(pre, nil, err, true)
+	if err != nil {
+		zz.Assert(code == "", e.name+": a refused authorization returns no code")
+		if resp != nil {
+			zz.Assert(resp.GetParameters().Get("access_token") == "" && resp.GetParameters().Get("id_token") == "" && resp.GetParameters().Get("code") == "",
+				e.name+": a refused authorization returns no token")
+		}
+	}
+	if len(v.faults) == 0 {
+		zz.Assert(err == nil, e.name+": without a fault the authorization succeeds")
+	}
+	// clean retry by the same user agent
+	code2, resp2, err := e.w.AuthorizeCode("c1", []string{"offline", "photos"}, extra)
+	zz.Observe("retry.err", world.ErrName(err))
+	zz.Assert(err == nil, e.name+": the clean retry of the authorization succeeds")
+	if variant == 2 {
+		at := resp2.GetParameters().Get("access_token")
+		zz.Assert(at != "", e.name+": the implicit grant returns an access token")
+		t := &tok{val: at, use: fosite.AccessToken, grant: 0}
+		e.toks = append(e.toks, t)
+		zz.Assert(e.active(t), e.name+": the delivered access token is active")
+	} else {
+		r, err := e.redeem(code2, verifier)
+		zz.Assert(err == nil && r.GetAccessToken() != "", e.name+": a delivered code is redeemable")
+		e.add(r, 0)
+		_, err = e.redeem(code2, verifier)
+		zz.Assert(world.ErrName(err) == "invalid_grant", e.name+": the replay is answered invalid_grant")
+	}
+	e.sweep("at the end")
+}
+
+func ZZ_C18_authorize_T() {
+	tx := storeChoice()
+	runAuthorize(newEnv("authorize", tx, nil), zz.Choice("variant", 3))
+}
